@@ -7,3 +7,7 @@ import Golem.Props.C19
 import Golem.Lemmas.PoolInv
 import Golem.Props.C16
 import Golem.Props.C04
+import Golem.Props.C06
+import Golem.Props.C07
+import Golem.Props.C09
+import Golem.Props.C12
